@@ -115,6 +115,13 @@ check(
     "The four open shapes P19 (async docstring), P26 (comment in multi-line header), P27 (one-line def), P28 (raw docstring) are generated in a separate layer under their own labels and relax only the clause each corrupts.",
 )
 
+check(
+    "C13",
+    "Hypothesis-generated module pairs with dotted paths valid by construction; masked-AST equality oracle (every node but the selected location identical), annotation oracle, default-alignment oracle, raise-atomicity",
+    "Generated-input search over input/output modules and all valid (input-param, output-param) pairs, wrap templates and --input-eval: the output file must parse, the selected location must carry the input's name and (wrapped) annotation or the Literal of the evaluated value, ast.dump of everything else must be identical (covers every other definition, parameter, default and statement, and the alignment of defaults), and the input file must be untouched; when cdd rejects a path both files must be byte-identical.",
+    "The selected parameter's own default may take the value of a same-named input class attribute (designed behaviour), nothing else may change; param->attr pairs are outside the generated domain.",
+)
+
 NOT_YET = "check not built yet in this round (work in progress; DESIGN.md section 4 has the plan)"
 
 
